@@ -522,6 +522,11 @@ func RoundOnce(x Exact, c Ctx) Rounded {
 	if et := c.Etiny(); q < et {
 		q = et
 	}
+	if x.Den.Cmp(bigOne) == 0 && q < x.E {
+		// a terminating value has no digits below its own last one: with an
+		// astronomically large Precision there is nothing to pad down to
+		q = x.E
+	}
 	r.Quantum = q
 	i, remNZ, half := divideAtQuantum(x, q, adj)
 	r.Inexact = remNZ
